@@ -1317,9 +1317,13 @@ fn merge_with_schema(
                         );
                         let merged_validity =
                             merge_struct_validity(left_list.nulls(), right_list.nulls());
+                        // trimmed_values() starts at the first offset, so the offsets have to be
+                        // rebased to zero (they are not for sliced list arrays)
                         let merged_list = ListArray::new(
                             child_field.clone(),
-                            left_list.offsets().clone(),
+                            arrow_buffer::OffsetBuffer::from_lengths(
+                                left_list.offsets().windows(2).map(|w| (w[1] - w[0]) as usize),
+                            ),
                             merged_values,
                             merged_validity,
                         );
@@ -1342,9 +1346,13 @@ fn merge_with_schema(
                         );
                         let merged_validity =
                             merge_struct_validity(left_list.nulls(), right_list.nulls());
+                        // trimmed_values() starts at the first offset, so the offsets have to be
+                        // rebased to zero (they are not for sliced list arrays)
                         let merged_list = LargeListArray::new(
                             child_field.clone(),
-                            left_list.offsets().clone(),
+                            arrow_buffer::OffsetBuffer::from_lengths(
+                                left_list.offsets().windows(2).map(|w| (w[1] - w[0]) as usize),
+                            ),
                             merged_values,
                             merged_validity,
                         );
